@@ -11,8 +11,8 @@ from ..sim import Monitor, tree_struct
 from .common import all_demes, flat, gb
 
 PROP = "C13"
-N_QUICK = 2000
-N_THOROUGH = 40000
+N_QUICK = 6000
+N_THOROUGH = 150000
 RULE = ("(a) Whole-run twins: plans whose engines are index-stable (DE +-dither, SHADE, CMA-ES, L-BFGS-B local deme, "
         "LHS, Sobol, custom random search) and whose LSCs do not read raw fitness are executed as (f, maximize) and as "
         "the mirror (-f, minimize) with the same seeds and faults (budget sentinels mirror too); the trees must be "
